@@ -3,12 +3,17 @@ import os, time, subprocess, concurrent.futures as cf
 from vcommon import *
 
 PID = "C15"
-PROP_V = "Props/Properties_C15.v"
+PROP_V = ["Props/Properties_C15.v", "Props/Properties_C05sw.v"]
 GEN_MODULES = ["Consts", "Sites", "Time"]
 TRUSTED_BASE = ["the kernel futex contract is modelled in SemModel (timespec validation as Linux timespec64_valid); the real-kernel "
                 "behaviour is exercised by the child-process grid on the real library"]
 PARTIAL = ["C15_expired_prompt/C15_no_crash/C15_no_early_timeout are proved for the semaphore layer every timed entry point bottoms out in; the "
-           "plumbing above it (sem_wait_with_cancel, wait_n's short-circuit, cv/mu/note/counter wait loops) is covered by the real-library grid, not by a theorem"]
+           "plumbing above it: nsync_sem_wait_with_cancel_ is modelled step by step (Model/SemWaitModel.v, Properties_C05sw): C05sw_deadline_enabled / "
+           "C05sw_plain_deadline_enabled (for ANY deadline value, before the epoch included, the time-out step is enabled as soon as the clock has reached it), "
+           "C15sw_no_deadline (with no deadline and no note the wait never times out and returns only 0), C05sw_results (no other result exists); that an expired "
+           "deadline returns within a bounded number of own steps (C05sw_expired_prompt_stmt) is a Definition with computed instances only; wait_n's short-circuit "
+           "and the cv / mu / note / counter wait loops are covered by the real-library grid (now also with never-notified cancel notes and the wait_n heap path), "
+           "not by a theorem"]
 REPLAY_HINT = "_work/c15/drv_<build> <entry> <kind> <sec> <nsec>   (harness/seq/deadline_driver.c linked with the library built from /repo)"
 ENTRIES = ["cv", "mu", "note", "counter", "waitn", "cvn", "mun", "rmun", "waitn5"]
 I64MAX = 2 ** 63 - 1
@@ -113,6 +118,9 @@ def run(tier, seed):
     # tie of the deadline plumbing (the timespec handed to the kernel, the re-check against now) = SemModel's lock-step replay
     sem = prop_C12.run(tier, seed)
     res = {"violations": [v for v in sem["violations"]], "broken": list(sem["broken"]), "coverage": {}}
+    # tie of sem_wait.c's deadline / expiry plumbing = SemWaitModel's lock-step replay over cancel_mix
+    import mu_common
+    tie_sw = mu_common.tie(res, "semwait_replay", "SemWaitModel", [("cancel_mix", {}, 100, 1000), ("cancel_mix", {"VRT_KIND": 2, "VRT_OMIT": 1}, 50, 500)], tier, seed)
     exes, errs = build()
     for k, e in errs.items():
         res["broken"].append({"what": "library + driver (%s build) does not compile" % k, "detail": e})
@@ -144,6 +152,7 @@ def run(tier, seed):
                                "that is never notified (ETIMEDOUT, not ECANCELED, is the timeout result); wait_n on five notes (heap path)} x {C build, C++ build} of the "
                                "real library on the real futex, one child process per case with a 15 s watchdog; early timeouts are judged against the deadline itself on CLOCK_REALTIME; non-trivial = all but no_deadline",
                        "builds": sorted(exes), "samples": cases[:3],
-                       "traces_validated_against_impl": sem["coverage"].get("traces_validated_against_impl", 0),
+                       "traces_validated_against_impl": sem["coverage"].get("traces_validated_against_impl", 0) + tie_sw.get("traces_validated_against_impl", 0),
+                       "semwait_lockstep_model_steps": tie_sw.get("lockstep_model_steps", 0),
                        "sem_model_events_hit": sem["coverage"].get("model_events_hit", {})}
     return res
